@@ -36,7 +36,10 @@ def gen_case(rng):
             vs = [vals() for _ in range(rng.randrange(1, 5))]
             cyc = rng.random() < 0.4
             name = rng.choice(["onCycle", "C"]) if cyc else rng.choice(["onNote", "N"])
-            src.append("%s.%s(%s)" % (KINDS[k], name, ",".join(map(str, vs)))); sx.append("(onnote %d (%s) %d)" % (k, " ".join(map(str, vs)), 1 if cyc else 0)); nres += 1
+            # (an empty list reserves nothing; a trailing comma adds no value)
+            if rng.random() < 0.08: vs = []
+            tail = "," if vs and rng.random() < 0.1 else ""
+            src.append("%s.%s(%s%s)" % (KINDS[k], name, ",".join(map(str, vs)), tail)); sx.append("(onnote %d (%s) %d)" % (k, " ".join(map(str, vs)), 1 if cyc else 0)); nres += 1
         elif x < 0.70:
             k = rng.randrange(0, 5)
             v = {0: rng.randint(0, 127), 1: rng.randint(1, 100), 2: rng.randint(0, 5), 3: rng.randint(2, 8), 4: rng.choice([8, 4, 16])}[k]
